@@ -1089,7 +1089,129 @@ func genPlugin(repo string) *leanFile {
 		}
 		l.lines = append(l.lines, "/-- betterRDNSS: predicate order as codes (0 IsPrivate, 1 IsGlobalUnicast, 2 IsLinkLocalUnicast, 99 other) -/\ndef rdnssRankingCodes : List Nat := ["+strings.Join(codes, ", ")+"]")
 	}
+	// C17: sources that are nil until Prepare — is the nil func guarded before it is called?
+	for _, g := range []struct{ typ, field, name string }{
+		{"Prefix", "Addrs", "prefixGuardsNilAddrs"},
+		{"Prefix", "TimeNow", "prefixGuardsNilTimeNow"},
+		{"Route", "Routes", "routeGuardsNilRoutes"},
+		{"Route", "TimeNow", "routeGuardsNilTimeNow"},
+		{"RDNSS", "Addrs", "rdnssGuardsNilAddrs"},
+	} {
+		called, guarded := nilGuard(fl, g.typ, g.field)
+		if !called {
+			failf("plugin.go: no call of (*%s).%s() found in Apply/current/apply/lifetimes/lifetime", g.typ, g.field)
+		}
+		l.Bool(g.name, guarded, fmt.Sprintf("plugin.go: every call of (*%s).%s() is preceded (in the same method or in Apply) by an `if` on `%s == nil` that returns", g.typ, g.field, g.field))
+	}
 	return l
+}
+
+// nilGuard reports whether methods Apply/current/apply/lifetimes/lifetime of *typ call the
+// func-valued field, and whether every such call is dominated by a nil check: an `if` whose
+// condition contains `<recv>.<field> == nil` and whose body returns (and does not panic),
+// located either earlier in the calling method or anywhere in (*typ).Apply at top level.
+func nilGuard(fl *file, typ, field string) (called, guarded bool) {
+	methods := map[string]*ast.FuncDecl{}
+	for _, d := range fl.f.Decls {
+		fd, ok := d.(*ast.FuncDecl)
+		if !ok || fd.Recv == nil || len(fd.Recv.List) != 1 || fd.Body == nil {
+			continue
+		}
+		t := fd.Recv.List[0].Type
+		if st, ok := t.(*ast.StarExpr); ok {
+			t = st.X
+		}
+		if id, ok := t.(*ast.Ident); !ok || id.Name != typ {
+			continue
+		}
+		switch fd.Name.Name {
+		case "Apply", "current", "apply", "lifetimes", "lifetime":
+			methods[fd.Name.Name] = fd
+		}
+	}
+	// positions of guards per method
+	guardsIn := func(fd *ast.FuncDecl, topLevelOnly bool) []token.Pos {
+		var out []token.Pos
+		if fd == nil || len(fd.Recv.List[0].Names) == 0 {
+			return out
+		}
+		want := fd.Recv.List[0].Names[0].Name + "." + field + " == nil"
+		visit := func(is *ast.IfStmt) {
+			hit := false
+			ast.Inspect(is.Cond, func(n ast.Node) bool {
+				if be, ok := n.(*ast.BinaryExpr); ok && exprString(be) == want {
+					hit = true
+				}
+				return true
+			})
+			if !hit {
+				return
+			}
+			returns, panics := false, false
+			ast.Inspect(is.Body, func(n ast.Node) bool {
+				switch n := n.(type) {
+				case *ast.ReturnStmt:
+					returns = true
+				case *ast.CallExpr:
+					if exprString(n.Fun) == "panic" || exprString(n.Fun) == "panicf" {
+						panics = true
+					}
+				}
+				return true
+			})
+			if returns && !panics {
+				out = append(out, is.Pos())
+			}
+		}
+		if topLevelOnly {
+			for _, st := range fd.Body.List {
+				if is, ok := st.(*ast.IfStmt); ok {
+					visit(is)
+				}
+			}
+			return out
+		}
+		ast.Inspect(fd.Body, func(n ast.Node) bool {
+			if is, ok := n.(*ast.IfStmt); ok {
+				visit(is)
+			}
+			return true
+		})
+		return out
+	}
+	applyGuards := guardsIn(methods["Apply"], true)
+	guarded = true
+	for name, fd := range methods {
+		if len(fd.Recv.List[0].Names) == 0 {
+			continue
+		}
+		callee := fd.Recv.List[0].Names[0].Name + "." + field
+		local := guardsIn(fd, false)
+		ast.Inspect(fd.Body, func(n ast.Node) bool {
+			c, ok := n.(*ast.CallExpr)
+			if !ok || exprString(c.Fun) != callee {
+				return true
+			}
+			called = true
+			ok2 := false
+			for _, g := range local {
+				if g < c.Pos() {
+					ok2 = true
+				}
+			}
+			if name != "Apply" && len(applyGuards) > 0 {
+				ok2 = true
+			}
+			if !ok2 {
+				guarded = false
+			}
+			return true
+		})
+	}
+	if !called {
+		guarded = false
+	}
+	return called, guarded
 }
 
 // ---------------------------------------------------------------------------------------------
@@ -1238,6 +1360,44 @@ func genMetrics(repo string) *leanFile {
 		})
 		sort.Strings(kinds)
 		l.Strs("packOptionKinds", kinds, "packOptions: option types handled by the type switch (sorted)")
+	}
+	// option kinds collectMetrics picks out of the advertisement (`pick[*ndp.X](…)`) and reports
+	if fd := mf.fn("collectMetrics"); fd != nil {
+		set := map[string]bool{}
+		picked := map[string]string{} // local variable -> kind
+		ast.Inspect(fd.Body, func(n ast.Node) bool {
+			as, ok := n.(*ast.AssignStmt)
+			if !ok || len(as.Lhs) != 1 || len(as.Rhs) != 1 {
+				return true
+			}
+			c, ok := as.Rhs[0].(*ast.CallExpr)
+			if !ok {
+				return true
+			}
+			ix, ok := c.Fun.(*ast.IndexExpr)
+			if !ok || exprString(ix.X) != "pick" {
+				return true
+			}
+			picked[exprString(as.Lhs[0])] = strings.TrimPrefix(exprString(ix.Index), "*ndp.")
+			return true
+		})
+		// a kind counts only if its picked slice is ranged over inside the metrics switch
+		ast.Inspect(fd.Body, func(n ast.Node) bool {
+			rs, ok := n.(*ast.RangeStmt)
+			if !ok {
+				return true
+			}
+			if k, ok := picked[exprString(rs.X)]; ok {
+				set[k] = true
+			}
+			return true
+		})
+		var kinds []string
+		for k := range set {
+			kinds = append(kinds, k)
+		}
+		sort.Strings(kinds)
+		l.Strs("collectPickKinds", kinds, "collectMetrics: option types picked out of the advertisement and ranged over (sorted)")
 	}
 	// all call sites of RouterAdvertisement( in non-test sources
 	var sites []string
